@@ -3,9 +3,9 @@ CHECK_DEADLOCK FALSE
 CONSTANT Alpha <- AlphaQuick
 CONSTANT Alpha3 <- NoAlpha
 CONSTANT TamperEmit <- EmitQuick
+CONSTANT TamperWide = FALSE
 INVARIANT TypeOK
 INVARIANT TamperIsChange
-INVARIANT TamperChangesCanon
 INVARIANT AcceptIffUntampered
 INVARIANT DecodeInverts
 INVARIANT CanonIsClean
